@@ -41,6 +41,11 @@ def generic(pid, work, tier, seed, cmd, tracespec, scripts, design, sigfn, rule,
     owns = owns or (lambda v: guard_property(v["guard"]) == pid)
     mine = [v for v in viol if owns(v)]
     byid = {s["id"]: s for s in scripts} if scripts else {}
+    # signatures that are listed as open known findings are expected on this tree: they are reported as such without
+    # being executed a second time (everything else has to show again)
+    known_open = {k["signature"] for k in load_known() if k.get("property") == pid and k.get("status") == "open"}
+    expected = [v for v in mine if sigfn(v) in known_open]
+    mine = [v for v in mine if sigfn(v) not in known_open]
     if mine:
         if scripts:
             per = {}
@@ -63,6 +68,7 @@ def generic(pid, work, tier, seed, cmd, tracespec, scripts, design, sigfn, rule,
         if not conf:
             raise HarnessError("%s violations did not reproduce: %s" % (pid, sorted({sigfn(v) for v in mine})[:5]))
         mine = conf
+    mine = mine + expected
     seen = set()
     for v in mine:
         sig = sigfn(v)
